@@ -627,6 +627,7 @@ pub fn run(tier: Tier) -> i32 {
         eprintln!("MACHINERY: vacuous search");
         return 2;
     }
+    super::cq::c16_into(&mut rep);
     rep.finish()
 }
 
